@@ -1,7 +1,7 @@
 #!/bin/bash
 # setup: check the tools the framework needs and pre-build the default configurations (offline).
 set -e
-cd /verif
+cd "$(dirname "$0")/.."
 for t in gcc clang java python3; do command -v $t >/dev/null || { echo "missing $t"; exit 2; }; done
 test -f /opt/veriftools/tla/tla2tools.jar
 mkdir -p build evidence replays
